@@ -395,7 +395,7 @@ func doReplay(path string, showLog bool) int {
 	if v.Machinery != "" {
 		return 2
 	}
-	if v.Class == rf.Expect.Class && v.Sig == rf.Expect.Sig && v.Class != "" {
+	if v.Class == rf.Expect.Class && (v.Sig == rf.Expect.Sig || v.Class == "race") && v.Class != "" {
 		fmt.Fprintf(out, "VIOLATION property=%s replay=%s\n", rf.Property, path)
 		return 1
 	}
@@ -414,7 +414,8 @@ func doMinimise(path, outPath string, budget time.Duration) int {
 	}
 	deadline := time.Now().Add(budget)
 	same := func(v *worlds.Verdict) bool {
-		return v.Machinery == "" && v.Class == rf.Expect.Class && v.Sig == rf.Expect.Sig
+		// race signatures are derived from the detector's report, which only the batch run captures
+		return v.Machinery == "" && v.Class == rf.Expect.Class && (v.Sig == rf.Expect.Sig || v.Class == "race")
 	}
 	// try reproduces a candidate plan: first with the old tape (lenient), then with a few fresh schedule seeds.
 	try := func(pl interface{}, tape []simrt.Choice) (bool, []simrt.Choice, uint64) {
